@@ -211,9 +211,15 @@ func execute(line string, dstLink bool) (o outcome) {
 	}
 	isZip := f[0] == "zip"
 	mask := oct(f[1])
-	t, err := os.MkdirTemp("/tmp", "c19-")
-	if err != nil {
-		panic(err)
+	// the close-fault parent (closefault.go) fixes the sandbox so that it can tell strace which path to watch
+	t := os.Getenv("C19_T")
+	if t != "" {
+		must(os.Mkdir(t, 0o700))
+	} else {
+		var err error
+		if t, err = os.MkdirTemp("/tmp", "c19-"); err != nil {
+			panic(err)
+		}
 	}
 	defer cleanup(t)
 	base := filepath.Base(t)
@@ -222,6 +228,7 @@ func execute(line string, dstLink bool) (o outcome) {
 	limit := -1
 	via := ""
 	times := 1
+	ddSet, dd, cw := false, "", "" // dd: the destination as the caller spells it; cw: the working directory (below T)
 	if dpKind >= 2 {
 		must(os.Mkdir(filepath.Join(t, "q"), 0o755))
 		switch dpKind {
@@ -242,7 +249,11 @@ func execute(line string, dstLink bool) (o outcome) {
 			via = p[1]
 		case p[0] == "r" && len(p) == 2:
 			times = hx.Atoi(p[1])
-		case (p[0] == "dl" || p[0] == "dp") && len(p) == 2:
+		case (p[0] == "dl" || p[0] == "dp" || p[0] == "cf") && len(p) == 2:
+		case p[0] == "dd" && len(p) == 2:
+			ddSet, dd = true, subst(string(hx.UnHex(p[1])))
+		case p[0] == "cw" && len(p) == 2:
+			cw = string(hx.UnHex(p[1]))
 		case p[0] == "i" && len(p) >= 3 && skip(string(hx.UnHex(p[2]))):
 			// below a destination whose parent does not exist
 		case p[0] == "w" && len(p) == 2:
@@ -333,6 +344,14 @@ func execute(line string, dstLink bool) (o outcome) {
 	default:
 		o.bad = true
 		return
+	}
+	if ddSet { // the destination is handed over as spelled (relative, unclean, …) with the process in T/<cw>
+		if os.Chdir(filepath.Join(t, cw)) != nil {
+			o.bad = true
+			return
+		}
+		defer func() { _ = os.Chdir("/") }()
+		dst = dd
 	}
 	restore := writeLimit(limit)
 	fm := os.FileMode(mask)
@@ -721,5 +740,6 @@ func format(nodes []node) string {
 func main() {
 	syscall.Umask(0)
 	signal.Ignore(syscall.SIGXFSZ) // a write beyond RLIMIT_FSIZE must fail with EFBIG instead of killing the harness
-	hx.Main(map[string]hx.Area{"extract": area{}, "dstlink": linkArea{}, "dstlinkm": linkModelArea{}})
+	hx.Main(map[string]hx.Area{"extract": area{}, "dstlink": linkArea{}, "dstlinkm": linkModelArea{}, "dstform": formArea{},
+		"closefault": closeArea{}})
 }
